@@ -439,9 +439,9 @@ func (s *scanner) next() {
 	if c >= 0x80 {
 		r, size := utf8.DecodeRuneInString(src[s.i:])
 		if r == utf8.RuneError && size == 1 {
-			s.unspec(UNonUTF8)
-			s.advance(1)
-			s.emit(Unknown, start, row, col, src[start:s.i], "")
+			// a byte that is not UTF-8 text, outside strings and comments: no reading of the grammar
+			// (the repository's ASCII names, Go's Unicode names) makes it part of a token
+			s.fail("unknown-char", start, row, col, "non-utf8-byte")
 			return
 		}
 		if unicode.IsLetter(r) || unicode.IsDigit(r) {
